@@ -87,6 +87,8 @@ async def verif_runner(es, params):
         res["success"] = False
     if params.get("supplied_throughput") is not None:
         res["throughput"] = params["supplied_throughput"]
+    if params.get("ret"):
+        res.update(params["ret"])  # further meta data that a (custom) runner may return with its result
     if params.get("_task") is not None:
         # unique id of the logical request (task, client index in task, ordinal): every stored record identifies its request
         res["verif_id"] = f"{params['_task']}:{params['_client']}:{params['_k']}"
